@@ -131,13 +131,15 @@ def mszip_block(tokens, data, plan, rng=None, **opts):
     return bw.getvalue()
 
 
-def mszip_blocks(src, mode='mixed', rng=None, sizes=None, trailing=0):
+def mszip_blocks(src, mode='mixed', rng=None, sizes=None, trailing=0, max_block=FRAME + 6144):
     """src: bytes (tokenised here, block by block, against the decoder's window
     image) or a token list (matches never cross multiples of 32768, offsets <=
     32768, blocks are then the 32768-byte frames).  mode: 'zlib', 'stored',
     'fixed', 'dynamic' or 'mixed' (random kinds, sub-blocks, Huffman styles and
     RLE use - needs rng).  `trailing` random bytes may follow each deflate
-    stream (mszipd skips to the next 'CK').  Returns [(payload, usize)]."""
+    stream (mszipd skips to the next 'CK').  A block that would exceed
+    max_block bytes (cabd's CAB_INPUTMAX; bad random codes can do that) is
+    re-coded as stored.  Returns [(payload, usize)]."""
     if isinstance(src, (bytes, bytearray)):
         data = bytes(src)
         if mode == 'zlib': return zlib_blocks(data, rng.choice([1, 6, 9]) if rng else 6, sizes)
@@ -166,6 +168,7 @@ def mszip_blocks(src, mode='mixed', rng=None, sizes=None, trailing=0):
         else:
             plan = [(mode, len(chunk))]
         p = mszip_block(toks, chunk, plan, rng, **opts)
+        if len(p) + trailing > max_block: p = mszip_block(toks, chunk, [('stored', len(chunk))], rng)
         if trailing and rng: p += bytes(rng.choice(b'\0\xffCA') for _ in range(rng.randint(0, trailing)))
         out.append((p, len(chunk)))
     return out
